@@ -36,8 +36,8 @@ def _cli_writer(np, case, path, ctx):
 	from gambit.kmers import KmerSpec
 	k, prefix = case['cli_spec']
 	n = case['cli_n']
-	genomes = H.make_genomes(case['cli_seed'], n, nanc=2, plant=tuple({'ATGAC', prefix}), dup_prob=0.0)
-	key = ('c19cli', case['cli_seed'], n)
+	genomes = H.make_genomes(case['cli_seed'], n, nanc=2, plant=tuple(sorted({'ATGAC', prefix})), dup_prob=0.0)
+	key = ('c19cli', case['cli_seed'], n, prefix)   # the genomes depend on the prefix (planted occurrences)
 	if key not in ctx.cache:
 		d = ctx.fresh_dir('c19cli')
 		ctx.cache[key] = H.write_genomes(d, genomes, [f'genome{i}.fasta' for i in range(n)])
